@@ -478,6 +478,22 @@ def str_method(ex, s, name, args, kw, st):
         return [(st, SBool(z3.SuffixOf(ex.z_str(a), zs)))]
     if name == 'format':
         return [(st, fresh_str('fmt'))]
+    if name == 'replace' and len(args) == 2 and not kw and all(isinstance(a, (str, SStr)) for a in args):
+        lib('str.replace(old, new) (total; the result is an unknown string)')
+        return [(st, fresh_str('replaced'))]
+    if name == 'split' and len(args) == 2 and not kw and isinstance(args[0], str) and args[0] and args[1] == 1:
+        # s.split(sep, 1): [s] when sep does not occur in s, else [a, b] with s == a + sep + b and sep not in a
+        lib('str.split(sep, 1) (one- or two-element list by whether sep occurs)')
+        sep = z3.StringVal(args[0])
+        out = []
+        for s2, b in ex.decide(st, z3.Contains(zs, sep)):
+            if b:
+                a_, b_ = fresh('split_head', z3.StringSort()), fresh('split_tail', z3.StringSort())
+                s2.assume(z3.And(zs == z3.Concat(a_, sep, b_), z3.Not(z3.Contains(a_, sep))))
+                out.append((s2, ex.new_list(s2, [('el', SStr(a_)), ('el', SStr(b_))])))
+            else:
+                out.append((s2, ex.new_list(s2, [('el', s)])))
+        return out
     if name == 'split' and not args and not kw:
         lib('str.split() (uninterpreted word count / words; IndexError beyond the count)')
         nw = W.nwords(zs)
